@@ -255,6 +255,16 @@ func (h *fwdHarness) deliver(e int) {
 				s.Frame, s, map[bool]string{true: "was withheld", false: "was forwarded"}[withheld], map[bool]string{true: "was withheld", false: "was forwarded"}[fate], strings.Join(h.log, "\n"))
 		}
 	}
+	if len(caps) == 0 && !ahead && h.arr[e] == 1 && h.or.c01 && h.next-e < 4000 {
+		// a first copy that arrives late (later packets have already been forwarded under numbers that count it in) and is
+		// not sent: its number is never used, a gap.  The forwarder remembers the numbering of the last 128 drop points; only
+		// a packet older than that may have to be refused.
+		i := sort.SearchInts(h.w, e)
+		if dropsSince := len(h.w) - i; dropsSince < 100 {
+			t.Fatalf("C01: the late packet %v (head-%d, %d packets withheld since) was neither forwarded nor could it be withheld without a gap: the number %d reserved for it is never sent\n%s",
+				s, h.next-e, dropsSince, h.want(e), strings.Join(h.log[max(0, len(h.log)-12):], "\n"))
+		}
+	}
 	if len(caps) == 0 {
 		if ahead && h.arr[e] == 1 {
 			// not a late copy and nothing was sent: deliberately withheld
@@ -427,7 +437,7 @@ func genStream(t *rapid.T, cfg streamCfg) []*srcPkt {
 					sp.VP9NPDiff = 1 + f%3
 					sp.VP9V = key && sid == 0 && i == 0
 					sp.VP9D = sid > 0
-					sp.NonRef = sid == nsid-1 && nsid > 1 && f%2 == 0
+					sp.NonRef = nsid > 1 && (sid == nsid-1 && f%2 == 0 || sid < nsid-1 && (f+sid)%3 == 0) // Z bit: not a reference for upper spatial layers
 				}
 				pkts = append(pkts, buildPkt(sp))
 				e++
